@@ -86,9 +86,23 @@ impl Suite for Normalize {
 
     fn gen(&self, rng: &mut Rng, tier: Tier, _idx: usize, _focus: &str) -> Vec<String> {
         let n_sites = rng.range(1, 6);
+        // ids: arbitrary, address-like, or small and dense (a stream that was normalized, compacted
+        // or hand-built before: concrete ids may then coincide with the canonical ones)
+        let id_mode = rng.below(4);
+        let mut small: Vec<u64> = (0..n_sites as u64 + 1).collect();
+        for i in (1..small.len()).rev() {
+            let j = rng.below(i + 1);
+            if rng.chance(1, 2) {
+                small.swap(i, j);
+            }
+        }
         let sites: Vec<(u64, Site)> = (0..n_sites)
-            .map(|_| {
-                let id = if rng.chance(1, 2) { rng.next() } else { 0x5555_0000_0000 + rng.below(40) as u64 * 0x88 };
+            .map(|k| {
+                let id = match id_mode {
+                    0 => rng.next(),
+                    1 => 0x5555_0000_0000 + rng.below(40) as u64 * 0x88,
+                    _ => small[k],
+                };
                 (id, gen::site(rng, None, 3))
             })
             .collect();
